@@ -60,6 +60,9 @@ const (
 var fromRegex = regexp.MustCompile(
 	`(?i)^FROM:\s*<((?:(?:\\>|[^>])+|"[^"]+"@[^>])+)?>( ([\w= ]|=<>)+)?$`)
 
+// errMessageTooLarge is returned by readDataBlock for a message over MaxMessageBytes.
+var errMessageTooLarge = errors.New("message exceeds the maximum size")
+
 func (s State) String() string {
 	switch s {
 	case GREET:
@@ -556,6 +559,12 @@ func (s *Session) mailHandler(cmd string, arg string) {
 func (s *Session) dataHandler() {
 	s.send("354 Start mail input; end with <CRLF>.<CRLF>")
 	msgBuf, err := s.readDataBlock()
+	if err == errMessageTooLarge {
+		s.send("552 Maximum message size exceeded")
+		s.logger.Warn().Msgf("Message exceeded the %v byte limit, rejected", s.config.MaxMessageBytes)
+		s.reset()
+		return
+	}
 	if err != nil {
 		if netErr, ok := err.(net.Error); ok {
 			if netErr.Timeout() {
@@ -623,9 +632,19 @@ func (s *Session) readDataBlock() ([]byte, error) {
 	if err := s.conn.SetReadDeadline(s.nextDeadline()); err != nil {
 		return nil, err
 	}
-	b, err := s.text.ReadDotBytes()
+	// Read at most one byte more than the limit, the remainder of an oversized message is
+	// discarded up to the terminating dot so that the session stays in sync.
+	dr := s.text.DotReader()
+	limit := int64(s.config.MaxMessageBytes)
+	b, err := io.ReadAll(io.LimitReader(dr, limit+1))
 	if err != nil {
 		return nil, err
+	}
+	if int64(len(b)) > limit {
+		if _, err := io.Copy(io.Discard, dr); err != nil {
+			return nil, err
+		}
+		return nil, errMessageTooLarge
 	}
 	if s.debug {
 		fmt.Printf("%04d   Received %d bytes\n", s.id, len(b))
